@@ -111,7 +111,7 @@ def history_pair(kind: int, si: int) -> None:
         _first(p, kind, t1)
         got = outcome(p, c2, TEXTS[t2])
         # post-states of real histories lie inside the havoc domain of the obligation above
-        dom = p.lex.lexpos >= 0 and p.lex.lineno >= 1 and isinstance(p.lex.paren_count, int)
+        dom = p.lex.lexpos >= 0 and p.lex.lineno >= 1 and isinstance(getattr(p.lex, 'paren_count', 0), int)
     assert dom, "a real history leaves the lexer outside the havoc domain (havoc obligation would not cover it)"
     assert got == EXPECTED[(c2, t2)], "after %d/%r, %s(%r) differs from a fresh parser" % (kind, TEXTS[t1], c2, TEXTS[t2])
     hlib.done()
